@@ -35,6 +35,7 @@ Exists(r) == \E p \in 0..r.received :
    n >= 0 /\ SubSeq(r.sink, n + 1, Len(r.sink)) = tail /\ IsPrefix(SubSeq(r.sink, 1, n), r.normal)
 
 Verdict(r) ==
+  IF "failed" \in DOMAIN r THEN "C11: the baseline run (no failure injected, no limit) failed: " \o r.failed ELSE
   IF r.res = "ok" THEN (IF r.nbo # 0 THEN "C11: bail-out handler ran although nothing failed" ELSE "ok")
   ELSE IF r.res = "panic" THEN "C11: panic"
   ELSE IF ~Graceful(r) THEN
